@@ -124,7 +124,7 @@ func RotateNodeCredentials(
 
 	// We can use the same request as it is signed/valid. This will be encrypted
 	// against the _new_ keys.
-	fetchResp, err := registration.FetchNodeCredentials(ctx, storage, fetchRequest, opt...)
+	fetchResp, err := registration.FetchNodeCredentials(ctx, storage, fetchRequest, append(opt, nodeenrollment.WithState(currentNodeInfo.State))...)
 	if err != nil {
 		// The new credentials cannot be handed out, so do not leave them
 		// registered: a refused rotation must not change what is authorized
